@@ -12,13 +12,19 @@ pub mod models;
 pub mod extm;
 #[cfg(kani)]
 pub mod dmodels;
+#[cfg(all(kani, feature = "rx"))]
+pub mod rx;
 
+#[cfg(all(kani, feature = "c01"))]
+pub mod c01;
 #[cfg(all(kani, feature = "c05"))]
 pub mod c05;
 #[cfg(all(kani, feature = "c06"))]
 pub mod c06;
 #[cfg(all(kani, feature = "c09"))]
 pub mod c09;
+#[cfg(all(kani, feature = "c10"))]
+pub mod c10;
 #[cfg(all(kani, feature = "c11"))]
 pub mod c11;
 #[cfg(all(kani, feature = "c15"))]
